@@ -21,7 +21,7 @@ import itertools
 
 import numpy as np
 
-from .. import biv, cases
+from .. import biv, cases, vinegen
 from .. import vinestruct as VS
 
 VTS = ('center', 'direct', 'regular')
@@ -436,8 +436,13 @@ def _run(ctx):
     need = ['clayton_dom', 'frank_dom', 'gumbel_dom']
     for k in need:
         ctx.obligation(f'translate:{k}', not status.get(k, 'missing'), 'translation', status.get(k, 'missing') or '')
+    # the edge kernel of tree.py, generated from the AST and proved equal to Model.Vine ([C16_bridge_*] in Props/C16.v).  A failed
+    # translation leaves the definition out of Gen_vinekernel.v: the bridge theorem cannot be checked and C16.v fails at it; the
+    # correspondence and the witness search below run regardless.
+    kstatus = vinegen.generate(ctx)
+    vinegen.record(ctx, kstatus, [k for k in vinegen.NAMES if k != 'gen_get_conditional_uni'])
     ctx.copy_src('Props/C16.v')
-    ctx.compile(['Gen_bivq.v', 'C16.v'])
+    ctx.compile(['Gen_bivq.v', 'Gen_vinekernel.v', 'C16.v'])
     ctx.rule('unit level: real VineCopula.train_vine + Tree.fit + CenterTree/DirectTree/RegularTree with synthetic tau matrices per level '
              '(select_copula, get_tau_matrix, prepare_next_tree stubbed): every strict ordering of the pairwise |tau| ranks for d = 2,3,4 '
              '(40 sampled orderings of the 720 for d = 4 in the quick tier) with random signs, and boundary-biased random matrices for d = 2..7 '
@@ -453,7 +458,10 @@ def _run(ctx):
              'D = intersection/pair = symmetric difference/|D| = k-1/no pair twice; regular first tree total |tau| = own Kruskal maximum) on every output')
     unit_level(ctx, quick)
     e2e_level(ctx, quick)
-    ctx.trusted += ['Model.Vine is a hand-written transcription of copulas/multivariate/tree.py and VineCopula.train_vine (structure only); tied by the replay correspondence',
+    ctx.trusted += ['Model.Vine is a hand-written transcription of copulas/multivariate/tree.py and VineCopula.train_vine (structure only); tied by the replay correspondence; '
+                    'its edge kernel (check_constraint, identify_eds_ing, is_adjacent, sort_edge / edge_key_le, get_child_edge, get_constraints) is in addition proved '
+                    'equal to definitions generated from the AST on every run (tools/vf/vinegen.py, denotations of the Python set operations, of sorted(key=) and of the '
+                    'append loop: coq/Lib/PySet.v - the translator and these denotations are trusted, the equality is proved)',
                     'scipy.stats.kendalltau / DataFrame.corr(method="kendall"), GaussianKDE marginals and select_copula are oracles: the tau matrices and the '
                     '(family, theta) pairs are captured values',
                     "numpy argsort tie-breaking and Python set iteration order enter the model as recorded data (the theorems hold for every order / every "
